@@ -1,4 +1,4 @@
-\* 2 peers, belief side (ListPeers): resets of either direction, disconnect, remote (un)subscribes; see bin/lib/props/c05.py
+\* 2 peers, belief side (ListPeers): resets of either direction, duplicate inbound stream with a changed hello, disconnect, remote (un)subscribes; see bin/lib/props/c05.py
 SPECIFICATION Spec
 CONSTANTS
   p1 = p1
@@ -15,13 +15,15 @@ CONSTANTS
   MaxDisc = 1
   MaxGate = 0
   MaxHold = 1
-  MaxRemote = 3
+  MaxRemote = 2
   MaxRef = 2
   AllowFanout = FALSE
   FixD12 = TRUE
   RetryRechecks = TRUE
   RetryFanoutAware = TRUE
   ClosedOrdered = TRUE
+  DupClears = TRUE
+  MaxDup = 1
 INVARIANT TypeOK
 INVARIANT P_C05_WireTruth
 INVARIANT P_C05_ListPeers
